@@ -68,6 +68,11 @@ def main(inp, outp):
                 eph.order = act[1]
             elif act[0] == "method":
                 eph.method = act[1]
+            elif act[0] == "copy":
+                eph = eph.copy()
+            elif act[0] == "pickle":
+                import pickle
+                eph = pickle.loads(pickle.dumps(eph))
             elif act[0] == "convert":
                 if act[1] != cur_repr[0]:
                     eph.frame = act[1]
